@@ -353,7 +353,7 @@ def job_pd(_):
 def configs(tier, seed):
     out = []
     quick = tier == 'quick'
-    Ns = [1, 2] if quick else [1, 2, 3, 4]
+    Ns = [1, 2] if quick else [1, 2, 3, 4, 5, 6]
     for N in Ns:
         for form in (3, 6, 9):
             if N >= 3 and form == 9 and quick:
@@ -364,9 +364,9 @@ def configs(tier, seed):
         out.append({'N': N, 'form': 6, 'variant': 'shift', 'group': 'reference-shift:N=%d' % N})
         out.append({'N': N, 'form': 6, 'variant': 'mirror', 'group': 'mirror-angles:N=%d' % N})
         out.append({'N': N, 'form': 6, 'variant': 'rot90', 'group': 'rotate-90:N=%d' % N})
-    for N in ([1, 2] if quick else [1, 2, 3]):
+    for N in ([1, 2] if quick else [1, 2, 3, 4]):
         out.append({'N': N, 'form': 6, 'variant': 'midsym', 'group': 'midplane-symmetric-B0:halfN=%d' % N})
-    for N in ([2] if quick else [2, 3]):
+    for N in ([2] if quick else [2, 3, 4]):
         out.append({'N': N, 'form': 6, 'variant': 'perm', 'group': 'A-independent-of-order:N=%d' % N})
     out[0]['canary'] = True
     out[3]['canary'] = True
